@@ -17,10 +17,10 @@ pub fn drive(t: &mut Tracer, r: &mut Rng, n: usize) {
                     let m = |r: &mut Rng, p: u64, hi: i64| -> i128 { if r.chance(1, p) { r.range(0, hi) as i128 } else { 0 } };
                     let dur = dur10(sg * m(r, 8, 1), sg * m(r, 3, 3), sg * m(r, 4, 2), sg * m(r, 2, 25), sg * m(r, 2, 50), sg * m(r, 2, 90), sg * m(r, 2, 4000), 0, 0, 0);
                     match r.range(0, 3) {
-                        0 | 1 => { let sm = *r.pick(&["month", "week", "day", "hour", "minute", "second"][..]);
+                        0 | 1 => { let sm = *r.pick(&["month", "week", "day", "hour", "minute", "second", "nanosecond"][..]);
                             let lg_c: Vec<&str> = ["year", "month", "week", "day", "hour", "minute", "second"].iter().cloned().filter(|l| unit_rank(l) >= unit_rank(sm)).collect();
                             let mut lg = *r.pick(&lg_c[..]);
-                            let inc = match sm { "hour" => *r.pick(&[1i64, 1, 2, 3, 6, 12][..]), "minute" | "second" => *r.pick(&[1i64, 1, 5, 15, 30][..]), _ => if r.chance(1, 4) { lg = sm; r.range(2, 4) } else { 1 } };
+                            let inc = match sm { "nanosecond" => 1, "hour" => *r.pick(&[1i64, 1, 2, 3, 6, 12][..]), "minute" | "second" => *r.pick(&[1i64, 1, 5, 15, 30][..]), _ => if r.chance(1, 4) { lg = sm; r.range(2, 4) } else { 1 } };
                             t.call("ZDur.round", json!({"zone": zone, "t": cur, "recv": dur, "st": {"largest": lg, "smallest": sm, "inc": inc, "mode": *r.pick(&MODES[..])}})); }
                         2 => { t.call("ZDur.total", json!({"zone": zone, "t": cur, "recv": dur, "unit": *r.pick(&["year", "month", "week", "day", "hour", "minute", "second"][..])})); }
                         _ => { let other = dur10(0, 0, 0, sg * r.range(0, 60) as i128, sg * m(r, 2, 50), 0, 0, 0, 0, 0);
